@@ -8,6 +8,7 @@ package resolver
 
 import (
 	"fmt"
+	"sort"
 
 	"github.com/DDP-Projekt/Kompilierer/src/ast"
 	"github.com/DDP-Projekt/Kompilierer/src/ddperror"
@@ -306,17 +307,30 @@ func (r *Resolver) VisitGrouping(expr *ast.Grouping) ast.VisitResult {
 
 func (r *Resolver) VisitFuncCall(expr *ast.FuncCall) ast.VisitResult {
 	// visit the passed arguments
-	for _, v := range expr.Args {
+	for _, v := range sortedArgs(expr.Args) {
 		r.visit(v)
 	}
 	return ast.VisitRecurse
 }
 
 func (r *Resolver) VisitStructLiteral(expr *ast.StructLiteral) ast.VisitResult {
-	for _, arg := range expr.Args {
+	for _, arg := range sortedArgs(expr.Args) {
 		r.visit(arg)
 	}
 	return ast.VisitRecurse
+}
+
+// returns the arguments in the order they appear in the source code
+// and not in the random order of the map
+func sortedArgs(args map[string]ast.Expression) []ast.Expression {
+	sorted := make([]ast.Expression, 0, len(args))
+	for _, arg := range args {
+		sorted = append(sorted, arg)
+	}
+	sort.Slice(sorted, func(i, j int) bool {
+		return sorted[i].GetRange().Start.IsBefore(sorted[j].GetRange().Start)
+	})
+	return sorted
 }
 
 // if a BadStmt exists the AST is faulty
